@@ -190,7 +190,7 @@ func fresnelSection(r *vlib.Run) {
 		}
 
 		// --- sampling frequencies and lobe directions at a few angles
-		for rep := 0; rep < 2; rep++ {
+		for rep := 0; rep < 3; rep++ {
 			var cosv float64
 			switch rng.Intn(4) {
 			case 0:
@@ -199,6 +199,17 @@ func fresnelSection(r *vlib.Run) {
 				cosv = 0.02 + 0.1*rng.Float64()
 			default:
 				cosv = rng.Float64()
+			}
+			if rep == 2 {
+				// just inside the critical angle (sine of the refracted direction 1-1e-7..1-1e-9): the
+				// refracted lobe is almost tangent to the surface but still carries 1-R of the samples
+				eta := math.Max(m.IOR, 1/m.IOR)
+				if !(eta > 1.0001) {
+					continue
+				}
+				sinI := (1 - math.Pow(10, -7-2*rng.Float64())) / eta
+				cosv = math.Sqrt(1 - sinI*sinI)
+				c.Count("fresnel.near_critical_angle_cases", 1)
 			}
 			fixed := fr.At(1-cosv, rng.Float64()*2*math.Pi)
 			if side < 0 {
@@ -224,9 +235,12 @@ func fresnelSection(r *vlib.Run) {
 					api = "SampleDest"
 					draw = func(gen *rand.Rand) ref.V { return ref.From(lib.SampleDest(gen, n.C(), fixed.C())) }
 				}
-				if margin < 1e-6 || (!tir && mir.Dist(tr) < 2e-3) {
+				if margin < 1e-10 || (!tir && mir.Dist(tr) < 2e-3) {
 					c.Undecided("fresnel.sampling-margin")
 					continue
+				}
+				if rep == 2 && !tir {
+					c.Count("fresnel.near_critical_angle_sampling_tests", 1)
 				}
 				w := wit(map[string]interface{}{"fixed": fixed.Hex(), "api": api, "cos_incidence": cosFixed, "harness_mirror": mir.Hex(), "harness_refracted": tr.Hex(), "tir": tir, "schlick": want})
 				run := func(seed int64, cnt int) (nm, nt int64, ok bool) {
